@@ -413,6 +413,10 @@ def run_conc(pid, tier, seed, replay):
         run.add_mc("MC_Conc", "MC_Conc_C03_2", workers=8)
         if not quick:
             run.add_mc("MC_Conc", "MC_Conc_C03_3", workers=12)
+    if pid == "C16":
+        run.add_mc("MemcEvict", "MC_Evict", workers=8)           # eviction sweeps: every store returns
+        if not quick:
+            run.add_mc("MemcEvict", "MC_Evict3", workers=12, timeout=3000)
     if pid in ("C04", "C16"):
         run.add_mc("MC_Conc", "MC_Conc_C04_2", workers=8)
         if not quick:
@@ -512,6 +516,11 @@ def conc_eviction_extra(pid, tier, seed):
     run = Run(pid, tier, seed)
     run.dir = workdir("check-" + pid + "-conc")
     quick = tier == "quick"
+    # exhaustive: the model of concurrent stores + eviction sweeps (one action per yield point): termination, the
+    # bound and the exact accounting at quiescence, a sweep never takes the record its own store wrote
+    run.add_mc("MemcEvict", "MC_Evict", workers=8)
+    if not quick:
+        run.add_mc("MemcEvict", "MC_Evict3", workers=12, timeout=3000)
     jobs = []
     for i in range(2 if quick else 8):
         jobs.append((["conc", "--kind", "C14", "--set", "eviction", "--count", 15 if quick else 60, "--seed", seed * 10 + i,
@@ -529,7 +538,8 @@ def conc_eviction_extra(pid, tier, seed):
         log("  %s: %s" % (job.get("desc"), json.dumps(v)[:200]))
         bad.append(v)
     return len(bad), {"concurrent_eviction": {"histories": run.traces, "schedules_executed": run.extra.get("schedules_executed", 0),
-                                              "accepted": run.cov.get("history.linearizable", 0)}}
+                                              "accepted": run.cov.get("history.linearizable", 0),
+                                              "mc_runs": [{"cfg": r["cfg"], "distinct": r["distinct"], "generated": r["generated"]} for r in run.mc]}}
 
 
 def conc_expiry_extra(pid, tier, seed):
